@@ -47,6 +47,7 @@ long (*k_read_hook)(int fd, void *buf, unsigned long n);
 long (*k_write_hook)(int fd, const void *buf, unsigned long n);
 void (*k_close_hook)(int fd);
 void (*k_clock_hook)(void);
+long (*k_splice_hook)(int fdin, int fdout, unsigned long len);
 
 char sx_empty_string[1];
 
@@ -1090,8 +1091,8 @@ ssize_t splice(int fdin, off64_t *offin, int fdout, off64_t *offout, size_t len,
 {
 	if (sys_absent(KSYS_SPLICE))
 		return -1;
-	if (k_read_hook)
-		return k_read_hook(fdin, (void *)(long)fdout, 0x5B11CE00000000UL | len);
+	if (k_splice_hook)
+		return k_splice_hook(fdin, fdout, len);
 	errno = EINVAL;
 	return -1;
 }
